@@ -1,6 +1,9 @@
 package main
 
 import (
+	"sync/atomic"
+	"runtime"
+	"bufio"
 	"bytes"
 	"context"
 	"errors"
@@ -162,7 +165,19 @@ func runC14Child(e *emitter, tier string, seed uint64) {
 			for i := 0; i < M; i++ {
 				s := c14Shared[r.intn(len(c14Shared))]
 				ref := refs[s.name]
-				switch r.intn(5) {
+				switch r.intn(7) {
+				case 5, 6: // the caller's own large bufio.Writer, used for two documents and flushed afterwards
+					var sink bytes.Buffer
+					bw := bufio.NewWriterSize(&sink, 8192)
+					err1 := s.c.Render(context.Background(), bw)
+					k1, _ := c10ErrKind(err1)
+					runtime.Gosched()
+					err2 := s.c.Render(context.Background(), bw)
+					k2, _ := c10ErrKind(err2)
+					bw.Flush()
+					if ref.kind == "nil" && (sink.String() != ref.out+ref.out || k1 != "nil" || k2 != "nil") {
+						report(fmt.Sprintf("%s: two renders into the caller's bufio.Writer differ (%d vs %d bytes, err %s %s)", s.name, sink.Len(), 2*len(ref.out), k1, k2))
+					}
 				case 0: // plain buffer
 					var b bytes.Buffer
 					err := s.c.Render(context.Background(), &b)
@@ -213,6 +228,79 @@ func runC14Child(e *emitter, tier string, seed uint64) {
 		}(g)
 	}
 	wg.Wait()
+	// Phase 3 (development mode): one component's text file disappears for a moment (an editor replacing it, a clean
+	// rebuild) while everything keeps rendering. Renders that need the missing file may fail while it is missing; every
+	// other render must complete and be right, and after the file is back everything renders again.
+	if os.Getenv("TEMPL_DEV_MODE") == "true" {
+		files, _ := filepath.Glob(filepath.Join(os.Getenv("TEMPL_DEV_MODE_ROOT"), "templ_*.txt"))
+		if len(files) > 0 {
+			victim := files[int(seed)%len(files)]
+			var missing atomic.Bool
+			stop := make(chan struct{})
+			var pwg sync.WaitGroup
+			for g := 0; g < G; g++ {
+				pwg.Add(1)
+				go func(g int) {
+					defer pwg.Done()
+					r := &rng{s: seed*77 + uint64(g)}
+					for {
+						select {
+						case <-stop:
+							return
+						default:
+						}
+						s := c14Shared[r.intn(len(c14Shared))]
+						ref := refs[s.name]
+						wasMissing := missing.Load()
+						var b bytes.Buffer
+						err := s.c.Render(context.Background(), &b)
+						k, _ := c10ErrKind(err)
+						if b.String() != ref.out || k != ref.kind {
+							if !(err != nil && strings.Contains(err.Error(), "templ: failed") && (wasMissing || missing.Load())) {
+								report(fmt.Sprintf("%s: render while a text file was being replaced differs (%d vs %d bytes, err %v)", s.name, b.Len(), len(ref.out), err))
+							}
+						}
+						mu.Lock()
+						renders++
+						mu.Unlock()
+						time.Sleep(time.Millisecond)
+					}
+				}(g)
+			}
+			time.Sleep(150 * time.Millisecond)
+			missing.Store(true)
+			os.Rename(victim, victim+".gone")
+			time.Sleep(300 * time.Millisecond)
+			os.Rename(victim+".gone", victim)
+			now := time.Now()
+			os.Chtimes(victim, now, now)
+			time.Sleep(250 * time.Millisecond)
+			missing.Store(false)
+			time.Sleep(150 * time.Millisecond)
+			close(stop)
+			done := make(chan struct{})
+			go func() { pwg.Wait(); close(done) }()
+			select {
+			case <-done:
+			case <-time.After(20 * time.Second):
+				report("renders are stuck after a development text file went missing for 300 ms")
+				if first == "" {
+					first = "-"
+				}
+				fmt.Fprintf(e.w, "RESULT renders=%d mismatches=%d first=%s\n", renders, mismatches, hx(first))
+				e.w.Flush()
+				os.Exit(0)
+			}
+			for _, s := range c14Shared {
+				var b bytes.Buffer
+				err := s.c.Render(context.Background(), &b)
+				k, _ := c10ErrKind(err)
+				if b.String() != refs[s.name].out || k != refs[s.name].kind {
+					report(fmt.Sprintf("%s: render after the text file came back differs (err %v)", s.name, err))
+				}
+			}
+		}
+	}
 	if first == "" {
 		first = "-"
 	}
